@@ -164,14 +164,18 @@ impl WalRecuperator {
 
         // Determine if it's a table or index and execute the inverse
         if let Ok(create_table_instr) = CreateTableInstr::from_bytes(redo_bytes) {
-            let drop_instr = create_table_instr.inverse(object_id);
+            // The loser's CREATE may never have reached the data file: undoing something that
+            // is not there is a no-op (same tolerance as redo_drop).
+            let mut drop_instr = create_table_instr.inverse(object_id);
+            drop_instr.if_exists = true;
             let instr = DdlInstruction::DropTable(drop_instr);
             self.ddl_executor.execute_instruction(&instr)?;
             return Ok(());
         }
 
         if let Ok(create_index_instr) = CreateIndexInstr::from_bytes(redo_bytes) {
-            let drop_instr = create_index_instr.inverse(object_id);
+            let mut drop_instr = create_index_instr.inverse(object_id);
+            drop_instr.if_exists = true;
             let instr = DdlInstruction::DropIndex(drop_instr);
             self.ddl_executor.execute_instruction(&instr)?;
         }
